@@ -340,10 +340,116 @@ package decimal
 //@   tags safety C04,C07
 //@ func add10VV(z, x, y []Word) (c Word)
 //@   same add10VV_g
-//@   status assumed assembly
+//@   asm dec_arith_amd64.s
+//@   label U1 invariant[range] 0 <= SI && SI + 4 <= len(z) && DI == len(z) - SI - 4 && (CX == 0 || CX == 18446744073709551615)
+//@   label U1 invariant[words] wordsok(z[:SI])
+//@   label U1 invariant[value] V(z[:SI]) + (CX == 0 ? 0 : 1)*P(SI) == old(V(x[:SI])) + old(V(y[:SI]))
+//@   label U1 invariant[rest]  forall k in SI..len(z) :: x[k] == old(x[k]) && y[k] == old(y[k])
+//@   label U1 modifies mem(z)
+//@   label U1+14 hint assert(R11 + (CX == 0 ? 0 : 1)*10000000000000000000 == old(x[SI]) + old(y[SI]) + (CX_0 == 0 ? 0 : 1) && R11 < B && (CX == 0 || CX == 18446744073709551615))
+//@   label U1+23 hint assert(R11 + R12*10000000000000000000 + (CX == 0 ? 0 : 1)*100000000000000000000000000000000000000 == old(x[SI]) + old(y[SI]) + (old(x[SI+1]) + old(y[SI+1]))*10000000000000000000 + (CX_0 == 0 ? 0 : 1) && R12 < B && (CX == 0 || CX == 18446744073709551615))
+//@   label U1+32 hint assert(R11 + R12*10000000000000000000 + R13*100000000000000000000000000000000000000 + (CX == 0 ? 0 : 1)*1000000000000000000000000000000000000000000000000000000000 == old(x[SI]) + old(y[SI]) + (old(x[SI+1]) + old(y[SI+1]))*10000000000000000000 + (old(x[SI+2]) + old(y[SI+2]))*100000000000000000000000000000000000000 + (CX_0 == 0 ? 0 : 1) && R13 < B && (CX == 0 || CX == 18446744073709551615))
+//@   label U1+41 hint forget(AX, BX, CX, R11, R12, R13, R14, R11 + R12*10000000000000000000 + R13*100000000000000000000000000000000000000 + R14*1000000000000000000000000000000000000000000000000000000000 + (CX == 0 ? 0 : 1)*10000000000000000000000000000000000000000000000000000000000000000000000000000 == old(x[SI]) + old(y[SI]) + (old(x[SI+1]) + old(y[SI+1]))*10000000000000000000 + (old(x[SI+2]) + old(y[SI+2]))*100000000000000000000000000000000000000 + (old(x[SI+3]) + old(y[SI+3]))*1000000000000000000000000000000000000000000000000000000000 + (CX_0 == 0 ? 0 : 1) && R11 < B && R12 < B && R13 < B && R14 < B && (CX == 0 || CX == 18446744073709551615))
+//@   label U1+46 hint assert(SI == SI_0 + 4 && z[SI-4] + z[SI-3]*10000000000000000000 + z[SI-2]*100000000000000000000000000000000000000 + z[SI-1]*1000000000000000000000000000000000000000000000000000000000 + (CX == 0 ? 0 : 1)*10000000000000000000000000000000000000000000000000000000000000000000000000000 == old(x[SI-4]) + old(y[SI-4]) + (old(x[SI-3]) + old(y[SI-3]))*10000000000000000000 + (old(x[SI-2]) + old(y[SI-2]))*100000000000000000000000000000000000000 + (old(x[SI-1]) + old(y[SI-1]))*1000000000000000000000000000000000000000000000000000000000 + (CX_0 == 0 ? 0 : 1))
+//@   label U1+46 hint Vdef(z, 0, SI-1)
+//@   label U1+46 hint Vdef(z, 0, SI-2)
+//@   label U1+46 hint Vdef(z, 0, SI-3)
+//@   label U1+46 hint Vdef(z, 0, SI-4)
+//@   label U1+46 hint Vdef(old(x), 0, SI-1)
+//@   label U1+46 hint Vdef(old(x), 0, SI-2)
+//@   label U1+46 hint Vdef(old(x), 0, SI-3)
+//@   label U1+46 hint Vdef(old(x), 0, SI-4)
+//@   label U1+46 hint Vdef(old(y), 0, SI-1)
+//@   label U1+46 hint Vdef(old(y), 0, SI-2)
+//@   label U1+46 hint Vdef(old(y), 0, SI-3)
+//@   label U1+46 hint Vdef(old(y), 0, SI-4)
+//@   label U1+46 hint Pdef(SI-1)
+//@   label U1+46 hint Pdef(SI-2)
+//@   label U1+46 hint Pdef(SI-3)
+//@   label U1+46 hint Pdef(SI-4)
+//@   label U1+46 hint mul_eq(z[SI-4] + z[SI-3]*10000000000000000000 + z[SI-2]*100000000000000000000000000000000000000 + z[SI-1]*1000000000000000000000000000000000000000000000000000000000 + (CX == 0 ? 0 : 1)*10000000000000000000000000000000000000000000000000000000000000000000000000000, old(x[SI-4]) + old(y[SI-4]) + (old(x[SI-3]) + old(y[SI-3]))*10000000000000000000 + (old(x[SI-2]) + old(y[SI-2]))*100000000000000000000000000000000000000 + (old(x[SI-1]) + old(y[SI-1]))*1000000000000000000000000000000000000000000000000000000000 + (CX_0 == 0 ? 0 : 1), P(SI-4))
+//@   label U1+46 hint mul_eq(P(SI-3), B*P(SI-4), z[SI-3])
+//@   label U1+46 hint mul_eq(P(SI-2), 100000000000000000000000000000000000000*P(SI-4), z[SI-2])
+//@   label U1+46 hint mul_eq(P(SI-1), 1000000000000000000000000000000000000000000000000000000000*P(SI-4), z[SI-1])
+//@   label U1+46 hint mul_eq(P(SI), 10000000000000000000000000000000000000000000000000000000000000000000000000000*P(SI-4), (CX == 0 ? 0 : 1))
+//@   label U1+46 hint mul_eq(P(SI-3), B*P(SI-4), old(x[SI-3]) + old(y[SI-3]))
+//@   label U1+46 hint mul_eq(P(SI-2), 100000000000000000000000000000000000000*P(SI-4), old(x[SI-2]) + old(y[SI-2]))
+//@   label U1+46 hint mul_eq(P(SI-1), 1000000000000000000000000000000000000000000000000000000000*P(SI-4), old(x[SI-1]) + old(y[SI-1]))
+//@   label U1+46 hint assert(V(z[:SI]) + (CX == 0 ? 0 : 1)*P(SI) == old(V(x[:SI])) + old(V(y[:SI])))
+//@   label U1+46 hint assert(wordsok(z[:SI]))
+//@   label V1+0 hint forget0(AX, BX, R11, R12, R13, R14, (DI + 4) % 18446744073709551616 == len(z) - SI && 0 <= SI && SI <= len(z) && len(z) - SI < 4 && (CX == 0 || CX == 18446744073709551615) && wordsok(z[:SI]) && V(z[:SI]) + (CX == 0 ? 0 : 1)*P(SI) == old(V(x[:SI])) + old(V(y[:SI])) && (forall k in SI..len(z) :: x[k] == old(x[k]) && y[k] == old(y[k])))
+//@   label L1 invariant[range] 0 <= SI && SI < len(z) && DI == len(z) - SI && (CX == 0 || CX == 18446744073709551615)
+//@   label L1 invariant[words] wordsok(z[:SI])
+//@   label L1 invariant[value] V(z[:SI]) + (CX == 0 ? 0 : 1)*P(SI) == old(V(x[:SI])) + old(V(y[:SI]))
+//@   label L1 invariant[rest]  forall k in SI..len(z) :: x[k] == old(x[k]) && y[k] == old(y[k])
+//@   label L1 modifies mem(z)
+//@   label E1+0 hint forget0(AX, BX, R11, R12, R13, R14, SI == len(z) && (CX == 0 || CX == 18446744073709551615) && wordsok(z) && V(z) + (CX == 0 ? 0 : 1)*P(len(z)) == old(V(x[:len(z)])) + old(V(y[:len(z)])))
+//@   label L1+11 hint forget(AX, BX, CX, R11, R11 + (CX == 0 ? 0 : 1)*10000000000000000000 == old(x[SI]) + old(y[SI]) + (CX_0 == 0 ? 0 : 1) && R11 < B && (CX == 0 || CX == 18446744073709551615))
+//@   label L1+13 hint Vdef(z, 0, SI-1)
+//@   label L1+13 hint Vdef(old(x), 0, SI-1)
+//@   label L1+13 hint Vdef(old(y), 0, SI-1)
+//@   label L1+13 hint Pdef(SI-1)
+//@   label L1+13 hint mul_eq(z[SI-1] + (CX == 0 ? 0 : 1)*10000000000000000000, old(x[SI-1]) + old(y[SI-1]) + (CX_0 == 0 ? 0 : 1), P(SI-1))
+//@   label L1+13 hint mul_eq(P(SI), B*P(SI-1), (CX == 0 ? 0 : 1))
+//@   label L1+13 hint assert(V(z[:SI]) + (CX == 0 ? 0 : 1)*P(SI) == old(V(x[:SI])) + old(V(y[:SI])))
+//@   label L1+13 hint assert(wordsok(z[:SI]))
+//@   tags safety C04,C07
 //@ func sub10VV(z, x, y []Word) (c Word)
 //@   same sub10VV_g
-//@   status assumed assembly
+//@   asm dec_arith_amd64.s
+//@   label U2 invariant[range] 0 <= SI && SI + 4 <= len(z) && DI == len(z) - SI - 4 && (CX == 0 || CX == 18446744073709551615)
+//@   label U2 invariant[words] wordsok(z[:SI])
+//@   label U2 invariant[value] V(z[:SI]) + old(V(y[:SI])) == old(V(x[:SI])) + (CX == 0 ? 0 : 1)*P(SI)
+//@   label U2 invariant[rest]  forall k in SI..len(z) :: x[k] == old(x[k]) && y[k] == old(y[k])
+//@   label U2 modifies mem(z)
+//@   label U2+29 hint forget(AX, BX, CX, R11, R12, R13, R14, R11 + R12*10000000000000000000 + R13*100000000000000000000000000000000000000 + R14*1000000000000000000000000000000000000000000000000000000000 + old(y[SI]) + old(y[SI+1])*10000000000000000000 + old(y[SI+2])*100000000000000000000000000000000000000 + old(y[SI+3])*1000000000000000000000000000000000000000000000000000000000 + (CX_0 == 0 ? 0 : 1) == old(x[SI]) + old(x[SI+1])*10000000000000000000 + old(x[SI+2])*100000000000000000000000000000000000000 + old(x[SI+3])*1000000000000000000000000000000000000000000000000000000000 + (CX == 0 ? 0 : 1)*10000000000000000000000000000000000000000000000000000000000000000000000000000 && R11 < B && R12 < B && R13 < B && R14 < B && (CX == 0 || CX == 18446744073709551615))
+//@   label U2+34 hint assert(SI == SI_0 + 4 && z[SI-4] + z[SI-3]*10000000000000000000 + z[SI-2]*100000000000000000000000000000000000000 + z[SI-1]*1000000000000000000000000000000000000000000000000000000000 + old(y[SI-4]) + old(y[SI-3])*10000000000000000000 + old(y[SI-2])*100000000000000000000000000000000000000 + old(y[SI-1])*1000000000000000000000000000000000000000000000000000000000 + (CX_0 == 0 ? 0 : 1) == old(x[SI-4]) + old(x[SI-3])*10000000000000000000 + old(x[SI-2])*100000000000000000000000000000000000000 + old(x[SI-1])*1000000000000000000000000000000000000000000000000000000000 + (CX == 0 ? 0 : 1)*10000000000000000000000000000000000000000000000000000000000000000000000000000)
+//@   label U2+34 hint Vdef(z, 0, SI-1)
+//@   label U2+34 hint Vdef(z, 0, SI-2)
+//@   label U2+34 hint Vdef(z, 0, SI-3)
+//@   label U2+34 hint Vdef(z, 0, SI-4)
+//@   label U2+34 hint Vdef(old(x), 0, SI-1)
+//@   label U2+34 hint Vdef(old(x), 0, SI-2)
+//@   label U2+34 hint Vdef(old(x), 0, SI-3)
+//@   label U2+34 hint Vdef(old(x), 0, SI-4)
+//@   label U2+34 hint Vdef(old(y), 0, SI-1)
+//@   label U2+34 hint Vdef(old(y), 0, SI-2)
+//@   label U2+34 hint Vdef(old(y), 0, SI-3)
+//@   label U2+34 hint Vdef(old(y), 0, SI-4)
+//@   label U2+34 hint Pdef(SI-1)
+//@   label U2+34 hint Pdef(SI-2)
+//@   label U2+34 hint Pdef(SI-3)
+//@   label U2+34 hint Pdef(SI-4)
+//@   label U2+34 hint mul_eq(z[SI-4] + z[SI-3]*10000000000000000000 + z[SI-2]*100000000000000000000000000000000000000 + z[SI-1]*1000000000000000000000000000000000000000000000000000000000 + old(y[SI-4]) + old(y[SI-3])*10000000000000000000 + old(y[SI-2])*100000000000000000000000000000000000000 + old(y[SI-1])*1000000000000000000000000000000000000000000000000000000000 + (CX_0 == 0 ? 0 : 1), old(x[SI-4]) + old(x[SI-3])*10000000000000000000 + old(x[SI-2])*100000000000000000000000000000000000000 + old(x[SI-1])*1000000000000000000000000000000000000000000000000000000000 + (CX == 0 ? 0 : 1)*10000000000000000000000000000000000000000000000000000000000000000000000000000, P(SI-4))
+//@   label U2+34 hint mul_eq(P(SI-3), B*P(SI-4), z[SI-3])
+//@   label U2+34 hint mul_eq(P(SI-2), 100000000000000000000000000000000000000*P(SI-4), z[SI-2])
+//@   label U2+34 hint mul_eq(P(SI-1), 1000000000000000000000000000000000000000000000000000000000*P(SI-4), z[SI-1])
+//@   label U2+34 hint mul_eq(P(SI), 10000000000000000000000000000000000000000000000000000000000000000000000000000*P(SI-4), (CX == 0 ? 0 : 1))
+//@   label U2+34 hint mul_eq(P(SI-3), B*P(SI-4), old(x[SI-3]))
+//@   label U2+34 hint mul_eq(P(SI-2), 100000000000000000000000000000000000000*P(SI-4), old(x[SI-2]))
+//@   label U2+34 hint mul_eq(P(SI-1), 1000000000000000000000000000000000000000000000000000000000*P(SI-4), old(x[SI-1]))
+//@   label U2+34 hint mul_eq(P(SI-3), B*P(SI-4), old(y[SI-3]))
+//@   label U2+34 hint mul_eq(P(SI-2), 100000000000000000000000000000000000000*P(SI-4), old(y[SI-2]))
+//@   label U2+34 hint mul_eq(P(SI-1), 1000000000000000000000000000000000000000000000000000000000*P(SI-4), old(y[SI-1]))
+//@   label U2+34 hint assert(V(z[:SI]) + old(V(y[:SI])) == old(V(x[:SI])) + (CX == 0 ? 0 : 1)*P(SI))
+//@   label U2+34 hint assert(wordsok(z[:SI]))
+//@   label V2+0 hint forget0(AX, BX, R11, R12, R13, R14, (DI + 4) % 18446744073709551616 == len(z) - SI && 0 <= SI && SI <= len(z) && len(z) - SI < 4 && (CX == 0 || CX == 18446744073709551615) && wordsok(z[:SI]) && V(z[:SI]) + old(V(y[:SI])) == old(V(x[:SI])) + (CX == 0 ? 0 : 1)*P(SI) && (forall k in SI..len(z) :: x[k] == old(x[k]) && y[k] == old(y[k])))
+//@   label L2 invariant[range] 0 <= SI && SI < len(z) && DI == len(z) - SI && (CX == 0 || CX == 18446744073709551615)
+//@   label L2 invariant[words] wordsok(z[:SI])
+//@   label L2 invariant[value] V(z[:SI]) + old(V(y[:SI])) == old(V(x[:SI])) + (CX == 0 ? 0 : 1)*P(SI)
+//@   label L2 invariant[rest]  forall k in SI..len(z) :: x[k] == old(x[k]) && y[k] == old(y[k])
+//@   label L2 modifies mem(z)
+//@   label E2+0 hint forget0(AX, BX, R11, R12, R13, R14, SI == len(z) && (CX == 0 || CX == 18446744073709551615) && wordsok(z) && V(z) + old(V(y[:len(z)])) == old(V(x[:len(z)])) + (CX == 0 ? 0 : 1)*P(len(z)))
+//@   label L2+8 hint forget(AX, BX, CX, R11, R11 + old(y[SI]) + (CX_0 == 0 ? 0 : 1) == old(x[SI]) + (CX == 0 ? 0 : 1)*10000000000000000000 && R11 < B && (CX == 0 || CX == 18446744073709551615))
+//@   label L2+10 hint Vdef(z, 0, SI-1)
+//@   label L2+10 hint Vdef(old(x), 0, SI-1)
+//@   label L2+10 hint Vdef(old(y), 0, SI-1)
+//@   label L2+10 hint Pdef(SI-1)
+//@   label L2+10 hint mul_eq(z[SI-1] + old(y[SI-1]) + (CX_0 == 0 ? 0 : 1), old(x[SI-1]) + (CX == 0 ? 0 : 1)*10000000000000000000, P(SI-1))
+//@   label L2+10 hint mul_eq(P(SI), B*P(SI-1), (CX == 0 ? 0 : 1))
+//@   label L2+10 hint assert(V(z[:SI]) + old(V(y[:SI])) == old(V(x[:SI])) + (CX == 0 ? 0 : 1)*P(SI))
+//@   label L2+10 hint assert(wordsok(z[:SI]))
+//@   tags safety C04,C07
 //@ func add10VW(z, x []Word, y Word) (c Word)
 //@   same add10VW_g
 //@   status assumed assembly
